@@ -528,3 +528,37 @@ theorem hasRelationship_direct (fuel lf : Nat) (x : NsX) (recs : List RecX) (rel
     simp only [hc', Bool.not_false, if_true, Bool.false_and]
 
 end Hs.NsA
+
+namespace Hs.NsA
+open Hs Hs.Ns Relation
+
+/-- with several reflected entity defs, a candidate for the entity type is in no OTHER reflected entity def's
+inheritance: it is a most specific one -/
+theorem entityCandidates_most_specific (rows : List Row) (fuel : Nat) (hf : fuelFor (make rows).defs ≤ fuel)
+    (reflected : List Name) :
+    ∃ cands tw, entityCandidates fuel (make rows) reflected = .ok cands ∧
+      (defined (make rows).defs nEntity = true → entityTypes fuel (make rows) (extendSet [] reflected) = .ok tw) ∧
+      (tw.length ≠ 1 → ∀ c, c ∈ cands → ∀ e inh, (e, inh) ∈ tw → e ≠ c → c ∉ inh) := by
+  unfold entityCandidates
+  by_cases he : defined (make rows).defs nEntity = true
+  · simp only [he, Bool.not_true, Bool.false_eq_true, if_false]
+    obtain ⟨tw, h1, _⟩ := entityTypes_spec rows fuel hf (extendSet [] reflected)
+    rw [h1]
+    by_cases hl : tw.length = 1
+    · simp only [hl, if_true]
+      exact ⟨_, tw, rfl, fun _ => rfl, fun h => absurd hl h⟩
+    · simp only [hl, if_false]
+      refine ⟨_, tw, rfl, fun _ => rfl, fun _ c hc e inh hm hne => ?_⟩
+      obtain ⟨⟨c', i⟩, hcm, rfl⟩ := List.mem_map.1 hc
+      have hf' := (List.mem_filter.1 hcm).2
+      simp only [Bool.not_eq_true', List.any_eq_false] at hf'
+      have h2 := hf' (e, inh) hm
+      intro hcin
+      apply h2
+      simp only [Bool.and_eq_true, List.contains_iff_mem]
+      exact ⟨by simpa using hne, hcin⟩
+  · have he' : defined (make rows).defs nEntity = false := by simpa using he
+    simp only [he', Bool.not_false, if_true]
+    exact ⟨[], [], rfl, fun h => by simp at h, fun _ c hc => by simp at hc⟩
+
+end Hs.NsA
